@@ -334,6 +334,26 @@ fn check_doc(
                 case.rep.count("overlong:term+single-word(allowed)");
                 continue;
             }
+            // a term wider than the line is itself broken between its fragments
+            // (`--a-very-long-name=` / `META`): the tail of a term followed by exactly one word
+            let tail_plus_word = terms.iter().any(|term| {
+                term.char_indices().any(|(ix, ch)| {
+                    if ch != '=' && ch != ' ' {
+                        return false;
+                    }
+                    // the break is in front of `=` or behind it
+                    [&term[ix..], &term[ix + ch.len_utf8()..]].iter().any(|tail| {
+                        let tail = tail.trim_start();
+                        !tail.is_empty()
+                            && t.starts_with(tail)
+                            && t[tail.len()..].split(' ').filter(|x| !x.is_empty()).count() <= 1
+                    })
+                })
+            });
+            if tail_plus_word {
+                case.rep.count("overlong:tail-of-term+single-word(allowed)");
+                continue;
+            }
             case.rep.violation(
                 "line-exceeds-width",
                 "width",
@@ -358,6 +378,8 @@ pub fn run_case(case: &mut Case) {
     o.help_texts = false;
     o.info = false;
     o.hidden = true;
+    o.env = true;
+    o.env_only = false;
     let mut spec = gen_options(&mut rng, o);
     let mut helps = Vec::new();
     decorate(&mut spec, &mut rng, &mut helps);
@@ -369,6 +391,24 @@ pub fn run_case(case: &mut Case) {
     case.rep.definition(h);
     case.say(&format!("definition: {}", d.spec.pretty()));
     let parser = build_options(&d.spec);
+    // in a third of the cases the variables of the arguments are set to a text with an empty
+    // line in it: help shows `[env:VAR = ..]`, which is a part of the document like any other
+    let mut vars_set: Vec<String> = Vec::new();
+    if case.index % 3 == 1 {
+        let mut items = Vec::new();
+        d.spec.root.all_items(&mut items);
+        for it in items {
+            if it.is_arg() {
+                for v in &it.names.envs {
+                    std::env::set_var(v, "first line\n\nsecond paragraph \\ \"quoted\"");
+                    vars_set.push(v.clone());
+                }
+            }
+        }
+        if !vars_set.is_empty() {
+            case.rep.count("definitions-with-variables-set");
+        }
+    }
 
     // documents: help of every level (short and full), and error documents with long items
     let mut vectors: Vec<(Vec<Vec<u8>>, &str, Id)> = vec![
@@ -474,5 +514,8 @@ pub fn run_case(case: &mut Case) {
                     ),
             );
         }
+    }
+    for v in vars_set {
+        std::env::remove_var(v);
     }
 }
